@@ -973,6 +973,10 @@ class DesignSpace:
             )
 
         if normalize:
+            if not self.__norm_data_is_computed:
+                # This also clears the normalized current value.
+                self.__update_normalization_vars()
+
             if self.__has_current_value and not len(self.__norm_current_value_array):
                 self.__norm_current_value_array = self.normalize_vect(
                     self.__current_value_array,
@@ -1094,6 +1098,9 @@ class DesignSpace:
         )
         self.__no_integer = not self.__integer_components.any()
         self.__norm_data_is_computed = True
+        # The normalized current value depends on the normalization data.
+        self.__norm_current_value = {}
+        self.__norm_current_value_array = array([])
         if self.__has_current_value:
             self.__common_dtype = self.__get_common_dtype(self.__current_value.values())
         else:
